@@ -227,9 +227,55 @@ class Token(str):
     """an opaque value standing for an object the fold does not look into"""
 
 
+class Ref:
+    """a mutable reference to a scalar slot: (container, key) with container a list, an ADT value (dict) or an environment.
+    Aggregates (lists, ADT values) are shared by identity, so only scalar slots need an explicit reference."""
+    __slots__ = ("c", "k")
+
+    def __init__(self, c, k):
+        self.c, self.k = c, k
+
+    def load(self):
+        v = self.c[self.k]
+        return v.load() if isinstance(v, Ref) else v
+
+    def store(self, v):
+        cur = self.c[self.k]
+        if isinstance(cur, Ref):
+            cur.store(v)
+        else:
+            self.c[self.k] = v
+
+
+def _loaded(v):
+    return v.load() if isinstance(v, Ref) else v
+
+
+class _FieldSlot:
+    """container adaptor: slot 0 is the field `name` (index idx) of an ADT value, kept consistent under both keys"""
+    def __init__(self, obj, name, idx):
+        self.obj, self.name, self.idx = obj, name, idx
+
+    def __getitem__(self, _k):
+        if self.name in self.obj:
+            return self.obj[self.name]
+        return self.obj["#%d" % self.idx]
+
+    def __setitem__(self, _k, v):
+        self.obj[self.name] = v
+        self.obj["#%d" % self.idx] = v
+
+
+def strip_keep_deref(e):
+    return e
+
+
 class Folder:
     def __init__(self, facts, env=None, lets=None, on_call=None, effects=False, local_calls=2):
         self.local_calls = local_calls  # fold calls to crate-local functions by folding their bodies (depth bound)
+        self.opaque_consts = False      # associated constants of generic parameters (M::HIGH) become opaque tokens
+        self.views = False              # sub-slices as write-through views (only needed when code stores through slices)
+        self.max_iter = 4096
         self.effects = effects  # loop-free statement execution (let mut, assignment, early return)
         self.facts = facts
         self.env = dict(env or {})
@@ -242,6 +288,8 @@ class Folder:
         c = self.facts.consts.get(node["def"])
         if c is not None and "val" in c:
             return c["val"]
+        if self.opaque_consts:
+            return Token(str(node.get("def", "?")).split("::")[-1])
         raise Undecidable("constant %s has no value" % node.get("def"))
 
     def fold(self, e):
@@ -266,7 +314,22 @@ class Folder:
             if n in self.lets:
                 return self.fold(self.lets[n])
             raise Undecidable("free variable " + n)
-        if k in ("Borrow", "Deref", "Coerce"):
+        if k == "Borrow" and e.get("mut") and self.effects:
+            # `&mut <place>` of a scalar slot is a reference the callee / the loop body can store through; aggregates are shared
+            # by identity and stay transparent
+            try:
+                c, key = self._place(e["arg"])
+            except Undecidable:
+                return self.fold(e["arg"])
+            cur = c[key] if not isinstance(c, list) or (isinstance(key, int) and 0 <= key < len(c)) else None
+            if isinstance(cur, Ref):
+                return cur
+            if isinstance(cur, (int, bool)) or (isinstance(cur, Token) and isinstance(c, list)):
+                return Ref(c, key)
+            return self.fold(e["arg"])
+        if k == "Deref":
+            return _loaded(self.fold(e["arg"]))
+        if k in ("Borrow", "Coerce"):
             return self.fold(e["arg"])
         if k == "Cast":
             v = self.fold(e["arg"])
@@ -297,13 +360,15 @@ class Folder:
             b = self.fold(e["rhs"])
             return self._bin(e["op"], a, b, e)
         if k == "Index":
-            base = self.fold(e["lhs"])
+            base = _loaded(self.fold(e["lhs"]))
             idx = self.fold(e["index"])
-            if not isinstance(base, list) or not isinstance(idx, int):
+            if isinstance(base, list) and isinstance(idx, dict) and str(idx.get("__adt__", "")).startswith("core::ops::Range"):
+                return self._subslice(base, idx, e)
+            if not isinstance(base, list) or not isinstance(idx, int) or isinstance(idx, bool):
                 raise Undecidable("index")
             if not (0 <= idx < len(base)):
                 raise Trap("index %d out of bounds (len %d) at %s" % (idx, len(base), span_str(e["span"])))
-            return base[idx]
+            return _loaded(base[idx])
         if k == "If" and e["cond"].get("k") == "Let":
             v = self.fold(e["cond"]["expr"])
             ok, binds = self._pat_match(e["cond"]["pat"], v)
@@ -360,14 +425,13 @@ class Folder:
                     self.env.pop(n, None)
                 self.env.update(shadow)
         if k in ("Assign", "AssignOp") and self.effects:
-            lhs = strip(e["lhs"])
-            if lhs["k"] not in ("Var", "Upvar") or lhs["name"] not in self.env:
-                raise Undecidable("assignment to non-local")
+            c, key = self._place(e["lhs"])
+            slot = Ref(c, key)
             if k == "Assign":
-                self.env[lhs["name"]] = self.fold(e["rhs"])
+                slot.store(self.fold(e["rhs"]))
             else:
                 op = e["op"].replace("Assign", "")
-                self.env[lhs["name"]] = self._bin(op, self.env[lhs["name"]], self.fold(e["rhs"]), {"ty": lhs["ty"], "span": e["span"]})
+                slot.store(self._bin(op, slot.load(), self.fold(e["rhs"]), {"ty": strip(e["lhs"]).get("ty", e.get("ty")), "span": e["span"]}))
             return None
         if k == "Return" and self.effects:
             raise ReturnEx(self.fold(e["value"]) if "value" in e else None)
@@ -377,7 +441,7 @@ class Folder:
             if not fl or not self.effects:
                 raise Undecidable("loop")
             items = self._iterable(self.fold(fl[0]))
-            if items is None or len(items) > 4096:
+            if items is None or len(items) > self.max_iter:
                 raise Undecidable("loop over a non-constant or too long sequence")
             for item in items:
                 ok, binds = self._pat_match(fl[1], item)
@@ -466,6 +530,66 @@ class Folder:
             raise Undecidable("call to " + callee)
         raise Undecidable("expression kind " + k)
 
+    def _place(self, e):
+        """(container, key) of an assignable expression: a local, `*reference`, a field of an ADT value, an element of a list"""
+        k = e.get("k")
+        if k in ("Var", "Upvar"):
+            if e["name"] not in self.env:
+                raise Undecidable("assignment to non-local")
+            return (self.env, e["name"])
+        if k in ("Coerce", "Borrow"):
+            return self._place(e["arg"])
+        if k == "Block" and not e.get("stmts") and "expr" in e:
+            return self._place(e["expr"])
+        if k == "Deref":
+            inner = strip_keep_deref(e["arg"])
+            v = self.fold(e["arg"])
+            if isinstance(v, Ref):
+                return v.c, v.k
+            # a reference parameter bound directly to its value (legacy binding): the variable itself is the slot
+            return self._place(e["arg"])
+        if k == "Field":
+            c, key = self._place(e["lhs"])
+            obj = _loaded(c[key])
+            if not isinstance(obj, dict):
+                raise Undecidable("field of a non-ADT value")
+            name = e["field"]
+            if name not in obj and ("#%d" % e["idx"]) in obj:
+                name = "#%d" % e["idx"]
+            return _FieldSlot(obj, e["field"], e["idx"]), 0
+        if k == "Index":
+            c, key = self._place(e["lhs"])
+            obj = _loaded(c[key])
+            idx = self.fold(e["index"])
+            if not isinstance(obj, list) or not isinstance(idx, int):
+                raise Undecidable("indexed store into a non-list")
+            if not (0 <= idx < len(obj)):
+                raise Trap("index %d out of bounds (len %d) at %s" % (idx, len(obj), span_str(e["span"])))
+            return obj, idx
+        if k == "Call":
+            # index_mut / deref_mut on a list: the element slot
+            cc = canon(callee_of(e))
+            if cc.endswith("::index_mut") and len(e["args"]) == 2:
+                obj = _loaded(self.fold(e["args"][0]))
+                idx = self.fold(e["args"][1])
+                if isinstance(obj, list) and isinstance(idx, int) and 0 <= idx < len(obj):
+                    return obj, idx
+                if isinstance(obj, list) and isinstance(idx, int):
+                    raise Trap("index %d out of bounds (len %d) at %s" % (idx, len(obj), span_str(e["span"])))
+        raise Undecidable("assignment target " + str(k))
+
+    def _subslice(self, base, rng, e):
+        lo = rng.get("start", 0) if "start" in rng else 0
+        hi = rng.get("end", len(base)) if "end" in rng else len(base)
+        if str(rng.get("__adt__", "")).endswith("RangeInclusive") or str(rng.get("__adt__", "")).endswith("RangeToInclusive"):
+            hi = hi + 1
+        if not (isinstance(lo, int) and isinstance(hi, int)):
+            raise Undecidable("slice bounds")
+        if not (0 <= lo <= hi <= len(base)):
+            raise Trap("slice %d..%d out of range (len %d) at %s" % (lo, hi, len(base), span_str(e["span"])))
+        # a view: the elements themselves for aggregates, references for scalar slots (stores write through)
+        return [base[i] if isinstance(base[i], (Ref, dict, list)) else Ref(base, i) for i in range(lo, hi)] if self.effects and self.views else list(base[lo:hi])
+
     def _local_call(self, e):
         if self.local_calls <= 0:
             return NotImplemented
@@ -501,7 +625,8 @@ class Folder:
         for p, a in zip(body["params"], e["args"]):
             if a.get("k") == "Borrow" and a.get("mut") and p["pat"].get("k") == "Bind" and "sub" not in p["pat"]:
                 tgt = strip(a["arg"]) if "arg" in a else None
-                if tgt and tgt.get("k") in ("Var", "Upvar") and tgt["name"] in self.env and p["pat"]["name"] in sub.env:
+                if tgt and tgt.get("k") in ("Var", "Upvar") and tgt["name"] in self.env and p["pat"]["name"] in sub.env \
+                        and not isinstance(sub.env[p["pat"]["name"]], Ref):
                     self.env[tgt["name"]] = sub.env[p["pat"]["name"]]
         return res
 
@@ -714,6 +839,39 @@ class Folder:
             if isinstance(v, list) or (self._iterable(v) is not None and last in ("into_iter", "by_ref")):
                 return v
             return NotImplemented
+        if last == "iter_mut" and len(a) == 1:
+            v = _loaded(self.fold(a[0]))
+            if isinstance(v, list):
+                return [x if isinstance(x, (Ref, dict, list)) else Ref(v, i) for i, x in enumerate(v)]
+            return NotImplemented
+        if last in ("chunks", "chunks_exact", "chunks_mut", "chunks_exact_mut") and len(a) == 2:
+            v, n = _loaded(self.fold(a[0])), self.fold(a[1])
+            if isinstance(v, list) and isinstance(n, int):
+                if n == 0:
+                    raise Trap("chunk size must be non-zero at " + span_str(e["span"]))
+                mut = last.endswith("_mut")
+                out = []
+                full = len(v) - (len(v) % n) if "exact" in last else len(v)
+                for s0 in range(0, full, n):
+                    idxs = range(s0, min(s0 + n, len(v)))
+                    out.append([(v[i] if isinstance(v[i], (Ref, dict, list)) else Ref(v, i)) if mut else v[i] for i in idxs])
+                return out
+            return NotImplemented
+        if last in ("split_first", "split_last") and len(a) == 1:
+            v = _loaded(self.fold(a[0]))
+            if isinstance(v, list):
+                if not v:
+                    return opt(None, False)
+                return opt((v[0], list(v[1:])) if last == "split_first" else (v[-1], list(v[:-1])))
+            return NotImplemented
+        if last == "fill" and len(a) == 2:
+            v = _loaded(self.fold(a[0]))
+            if isinstance(v, list):
+                x = self.fold(a[1])
+                for i in range(len(v)):
+                    Ref(v, i).store(x)
+                return None
+            return NotImplemented
         if last in ("unwrap", "expect") and cc.startswith(("core::option::Option", "core::result::Result")):
             v = self.fold(a[0])
             if isinstance(v, dict) and v.get("__variant__") in ("Some", "Ok"):
@@ -722,7 +880,7 @@ class Folder:
                 raise Trap("unwrap/expect on %s at %s" % (v["__variant__"], span_str(e["span"])))
             return NotImplemented
         if last in ("find", "position", "any", "all", "map", "filter", "rev", "len", "count", "skip", "take", "last", "next_back",
-                    "contains", "first", "nth", "enumerate", "is_empty", "get", "find_map"):
+                    "contains", "first", "nth", "enumerate", "is_empty", "get", "find_map", "step_by", "zip"):
             v = self.fold(a[0])
             seq = self._iterable(v)
             if seq is None:
@@ -744,6 +902,14 @@ class Folder:
             arg = self.fold(a[1])
             if last in ("skip", "take") and isinstance(arg, int):
                 return seq[arg:] if last == "skip" else seq[:arg]
+            if last == "step_by" and isinstance(arg, int):
+                if arg == 0:
+                    raise Trap("step_by(0) at " + span_str(e["span"]))
+                return seq[::arg]
+            if last == "zip":
+                other = self._iterable(arg)
+                if other is not None:
+                    return [(x, y) for x, y in zip(seq, other)]
             if last in ("nth", "get") and isinstance(arg, int):
                 return opt(seq[arg]) if 0 <= arg < len(seq) else opt(None, False)
             if last == "contains":
@@ -804,6 +970,8 @@ class Folder:
         k = pat["k"]
         if k == "Wild":
             return True, {}
+        if k not in ("Bind",) and isinstance(v, Ref):
+            v = v.load()
         if k == "Bind":
             if "sub" in pat:
                 ok, b = self._pat_match(pat["sub"], v)
@@ -893,6 +1061,7 @@ class Folder:
         return v
 
     def _bin(self, op, a, b, e):
+        a, b = _loaded(a), _loaded(b)
         if op not in ("Eq", "Ne") and not (isinstance(a, (int, bool)) and isinstance(b, (int, bool))):
             raise Undecidable("arithmetic on an opaque value")
         if op in ("Eq", "Ne") and (isinstance(a, Token) or isinstance(b, Token)):
@@ -1372,6 +1541,24 @@ def for_loop_parts(m):
     return None
 
 
+def iflet_sites(body):
+    """(pattern, scrutinee, then node) for every `if let P = e { then }` / `while let P = e { then }` and every
+    `let P = e else { diverge }; rest..` (then = the rest of the enclosing block) of a raw body"""
+    out = []
+    for n in walk(body):
+        if n.get("k") == "If" and n["cond"].get("k") == "Let":
+            out.append((n["cond"]["pat"], n["cond"]["expr"], n["then"]))
+        if n.get("k") == "Block":
+            sts = n.get("stmts", [])
+            for i, st in enumerate(sts):
+                if st.get("k") == "Let" and "else" in st and "init" in st:
+                    rest = {"k": "Block", "ty": n.get("ty", "()"), "span": n.get("span"), "stmts": sts[i + 1:]}
+                    if "expr" in n:
+                        rest["expr"] = n["expr"]
+                    out.append((st["pat"], st["init"], rest))
+    return out
+
+
 def while_parts(lp):
     """(condition, body block) of a raw `Loop` node that has the `while` shape loop { if c { body } else { break } }"""
     if lp.get("k") != "Loop":
@@ -1469,6 +1656,11 @@ def stmts(e, lets=None):
                  stmts(e["then"], lets), stmts(e["else"], lets) if "else" in e else [], sp)]
     if k == "Loop":
         body = stmts(e["body"], lets)
+        # `loop { let P = e else { break }; rest.. }` is `while let P = e { rest.. }`
+        if len(body) >= 2 and body[0][0] == "letpat" and body[0][2] is not None and body[1][0] == "letelse" and len(body[1][1]) == 1 and body[1][1][0][0] == "break" \
+                and (len(body) < 3 or body[2][0] != "letelse"):
+            pat = body[0][4]
+            body = [("if", ("iflet", body[0][2], tuple(body[0][1]), _pat_desc(pat)), body[2:], [body[1][1][0]], body[0][3])]
         # `loop { if c { break; } rest.. }` is `while !c { rest.. }`, which desugars to loop { if !c { rest.. } else { break } }
         if len(body) >= 1 and body[0][0] == "if" and isinstance(body[0][1], tuple) and body[0][1][0] != "iflet" and len(body[0][2]) == 1 \
                 and body[0][2][0][0] == "break" and not body[0][3] and len(body) > 1:
